@@ -536,6 +536,39 @@ fn small_scope(ctx: &mut Ctx, n: usize, menu: &[(usize, u8)], scales: &[f64]) {
     t_all.into_part(ctx, part);
 }
 
+/// I2 on a key that replaced another key in the same variable (per-key precomputations must not outlive the key)
+fn slot_reuse<V: Variant>(ctx: &mut Ctx) {
+    let n = V::N;
+    let (s0, s1) = (ctx.seed.wrapping_mul(4096) + 3, ctx.seed.wrapping_mul(4096));
+    let (sk1, _) = V::keygen(seed_bytes(s1));
+    let b0 = V::sk_basis(&sk1);
+    let g = i16s_to_i64(&b0[0]);
+    let f: Vec<i64> = b0[1].iter().map(|&x| -(x as i64)).collect();
+    let cg = i16s_to_i64(&b0[2]);
+    let cf: Vec<i64> = b0[3].iter().map(|&x| -(x as i64)).collect();
+    let rb = ref_basis(&g, &f, &cg, &cf);
+    let leaves = leaves_of(&V::sk_tree(&sk1));
+    let r = crate::sched::on_fresh_thread(move || {
+        let mut t = Tally::default();
+        let mut cur = V::keygen(seed_bytes(s0));
+        let _ = crate::util::with_stream(91, || V::sign(b"first key in the slot", &cur.0));
+        cur = V::keygen(seed_bytes(s1));
+        for (i, msg) in [&b"second key in the slot"[..], &b""[..]].iter().enumerate() {
+            sign_case::<V>(&mut t, &cur.0, &cur.1, &rb, &leaves, msg, 92 + i as u64, &[], s1, "in a reused variable");
+        }
+        t
+    });
+    let mut part = Part::new(&format!("key_slot_reuse_{}", n), "a key is generated into a local variable, signs once, and is replaced by a second key in the same variable (fresh thread); two signing executions of the second key get the full I2 check (every sampler call's centre, width and output against the dense reference of the SECOND key)");
+    part.exhaustive = true;
+    match r {
+        Ok(t) => t.into_part(ctx, part),
+        Err(e) => {
+            ctx.violation(format!("sign-panic:n={},slot-reuse", n), format!("panic while signing with a key in a reused variable: {}", e), json!({"kind":"slot","variant":n}));
+            ctx.add_part(part);
+        }
+    }
+}
+
 /// The range half of I1 over many more keys than the dense reference can afford: every leaf of every generated
 /// tree lies in [sigma_min, sigma_max], the precondition under which each SamplerZ call has the width the
 /// nearest-plane argument needs (outside it the sampler's acceptance arithmetic wraps and the output is no
@@ -620,6 +653,8 @@ pub fn run(tier: Tier) {
     }
     key_part::<V512>(&mut ctx, tier, &s512);
     key_part::<V1024>(&mut ctx, tier, &s1024);
+    slot_reuse::<V512>(&mut ctx);
+    slot_reuse::<V1024>(&mut ctx);
     leaf_window::<V512>(&mut ctx, tier);
     leaf_window::<V1024>(&mut ctx, tier);
     let full: Vec<(usize, u8)> = vec![(0, 0), (0, 1), (1, 0), (1, 1), (2, 0), (2, 1)];
@@ -643,6 +678,9 @@ pub fn replay(case: &Value) -> Result<Option<String>, String> {
         let n = case.get("variant").and_then(|x| x.as_u64()).ok_or("variant")? as usize;
         let (_, psigma, psigmin, _, _) = fh::parameters(n);
         return Ok(if psigma != sigma(n) || psigmin != sigma_min(n) { Some("parameter table differs from the specification".into()) } else { None });
+    }
+    if kind == "slot" {
+        return Err("re-run ./vf check C10 (the slot history is enumerated deterministically)".into());
     }
     if kind == "leaf-range" {
         let n = case.get("variant").and_then(|x| x.as_u64()).ok_or("variant")? as usize;
